@@ -101,7 +101,9 @@ func (self *Interpreter) callFunc(span errors.Span, val value.Value, args []ast.
 				return nil, i
 			}
 
-			closure.Scopes[len(closure.Scopes)-1][arg.Name] = argVal
+			// Arguments are passed by value: the parameter must not share the cell of the caller's variable.
+			cell := *argVal
+			closure.Scopes[len(closure.Scopes)-1][arg.Name] = &cell
 		}
 
 		val, i := self.block(closure.Block, false)
